@@ -6,6 +6,7 @@ import (
 	"go/parser"
 	"go/token"
 	"path/filepath"
+	"sort"
 	"strings"
 
 	"github.com/imroc/req/v3/verifharness/hk"
@@ -390,6 +391,7 @@ func syncCloneTable(repo string) (string, string, error) {
 	optValueCopy := false
 	optAssigned := map[string]bool{}
 	tlsCloned, tlsCerts, tlsRoots, dumperCloned := false, false, false, false
+	var optionDeepFields []string
 	for _, d := range of.Decls {
 		fd, ok := d.(*ast.FuncDecl)
 		if !ok || fd.Name.Name != "Clone" || fd.Recv == nil {
@@ -403,6 +405,11 @@ func syncCloneTable(repo string) (string, string, error) {
 			if id, ok := as.Lhs[0].(*ast.Ident); ok && id.Name == "oo" {
 				if r, ok := as.Rhs[0].(*ast.Ident); ok && r.Name == "o" {
 					optValueCopy = true
+				}
+			}
+			if sel, ok := as.Lhs[0].(*ast.SelectorExpr); ok && deepCall(as.Rhs[0]) {
+				if x, ok := sel.X.(*ast.Ident); ok && x.Name == "oo" {
+					optionDeepFields = append(optionDeepFields, sel.Sel.Name)
 				}
 			}
 			if plainCopy(as.Lhs[0], []string{"oo"}, "TLSClientConfig") && deepCall(as.Rhs[0]) {
@@ -449,6 +456,18 @@ func syncCloneTable(repo string) (string, string, error) {
 		}
 		return true
 	})
+	// Transport.Clone installs the TLS fingerprint handshake anew on the clone
+	fpReinstall := false
+	ast.Inspect(tfd.Body, func(n ast.Node) bool {
+		if c, ok := n.(*ast.CallExpr); ok && plainCopy(c.Fun, []string{"t"}, "reinstallTLSFingerprint") && len(c.Args) == 1 {
+			fpReinstall = true
+		}
+		return true
+	})
+	tlsWritten, err := tlsWrittenFields(repo)
+	if err != nil {
+		return "", "", err
+	}
 	has := func(l []string, x string) bool {
 		for _, y := range l {
 			if x == y {
@@ -561,6 +580,78 @@ func syncCloneTable(repo string) (string, string, error) {
 		"Definition gen_transport_clone_fields : list string := " + strs(transportLitKeys) + ".\n" +
 		"Definition gen_t2_fields : list string := " + strs(t2Fields) + ".\n" +
 		"Definition gen_t2_clone_fields : list string := " + strs(t2LitKeys) + ".\n" +
-		"Definition gen_options_ref_fields : list string := " + strs(optionRefFields) + ".\n"
+		"Definition gen_options_ref_fields : list string := " + strs(optionRefFields) + ".\n" +
+		"Definition gen_options_deep_fields : list string := " + strs(optionDeepFields) + ".\n" +
+		"(* Transport.Clone calls t.reinstallTLSFingerprint(tt) *)\n" +
+		"Definition gen_fingerprint_reinstalled : bool := " + b(fpReinstall) + ".\n" +
+		"(* fields of a *tls.Config that client.go / transport.go write or extend in place *)\n" +
+		"Definition gen_tls_written_fields : list string := " + strs(tlsWritten) + ".\n"
 	return "CloneTable.v", out, nil
+}
+
+// tlsWrittenFields lists the fields of the client's *tls.Config that package req writes in place:
+// `cfg.F = ...`, `cfg.F.AppendCertsFromPEM(...)` / AddCert with cfg := x.GetTLSClientConfig(),
+// `x.GetTLSClientConfig().F = ...`, `x.TLSClientConfig.F = ...`.
+func tlsWrittenFields(repo string) ([]string, error) {
+	seen := map[string]bool{}
+	for _, file := range []string{"client.go", "transport.go"} {
+		fs := token.NewFileSet()
+		f, err := parser.ParseFile(fs, filepath.Join(repo, file), nil, 0)
+		if err != nil {
+			return nil, err
+		}
+		isCfgCall := func(e ast.Expr) bool {
+			c, ok := e.(*ast.CallExpr)
+			if !ok {
+				return false
+			}
+			sel, ok := c.Fun.(*ast.SelectorExpr)
+			return ok && sel.Sel.Name == "GetTLSClientConfig"
+		}
+		for _, d := range f.Decls {
+			fd, ok := d.(*ast.FuncDecl)
+			if !ok || fd.Body == nil {
+				continue
+			}
+			cfgVars := map[string]bool{}
+			isCfg := func(e ast.Expr) bool {
+				if isCfgCall(e) {
+					return true
+				}
+				if id, ok := e.(*ast.Ident); ok {
+					return cfgVars[id.Name]
+				}
+				if sel, ok := e.(*ast.SelectorExpr); ok {
+					return sel.Sel.Name == "TLSClientConfig"
+				}
+				return false
+			}
+			ast.Inspect(fd.Body, func(n ast.Node) bool {
+				switch x := n.(type) {
+				case *ast.AssignStmt:
+					for i, l := range x.Lhs {
+						if id, ok := l.(*ast.Ident); ok && i < len(x.Rhs) && isCfgCall(x.Rhs[i]) {
+							cfgVars[id.Name] = true
+						}
+						if sel, ok := l.(*ast.SelectorExpr); ok && isCfg(sel.X) {
+							seen[sel.Sel.Name] = true
+						}
+					}
+				case *ast.CallExpr:
+					if m, ok := x.Fun.(*ast.SelectorExpr); ok && (m.Sel.Name == "AppendCertsFromPEM" || m.Sel.Name == "AddCert") {
+						if sel, ok := m.X.(*ast.SelectorExpr); ok && isCfg(sel.X) {
+							seen[sel.Sel.Name] = true
+						}
+					}
+				}
+				return true
+			})
+		}
+	}
+	var out []string
+	for k := range seen {
+		out = append(out, k)
+	}
+	sort.Strings(out)
+	return out, nil
 }
